@@ -11,8 +11,11 @@ import (
 	"path/filepath"
 	"strings"
 	"sync"
+	"sync/atomic"
 	"time"
 )
+
+var scriptSeq int64
 
 type solverSpec struct {
 	name string
@@ -64,15 +67,22 @@ func runSolver(ctx context.Context, sp solverSpec, file string, timeoutS, seed i
 	_ = cmd.Run()
 	secs = time.Since(t0).Seconds()
 	out = buf.String()
-	first := strings.TrimSpace(out)
-	if i := strings.IndexByte(first, '\n'); i >= 0 {
-		first = strings.TrimSpace(first[:i])
+	first := ""
+	for _, l := range strings.Split(out, "\n") {
+		l = strings.TrimSpace(l)
+		if l == "sat" || l == "unsat" || l == "unknown" || l == "timeout" {
+			first = l
+			break
+		}
+		if strings.HasPrefix(l, "WARNING") {
+			fmt.Fprintf(os.Stderr, "h2vc: solver %s: %s\n", sp.name, l)
+		}
 	}
 	switch first {
 	case "unsat", "sat":
 		return first, out, secs
 	}
-	if strings.Contains(out, "(error") && !strings.HasPrefix(first, "unknown") && !strings.HasPrefix(first, "timeout") {
+	if strings.Contains(out, "(error") && !strings.Contains(out, "open file") && !strings.HasPrefix(first, "unknown") && !strings.HasPrefix(first, "timeout") {
 		fmt.Fprintf(os.Stderr, "h2vc: solver %s reported an error on %s: %s\n", sp.name, file, firstLines(out, 2))
 		if os.Getenv("H2VC_KEEP") != "" {
 			_ = os.WriteFile(file+".err.smt2", mustRead(file), 0o644)
@@ -84,7 +94,7 @@ func runSolver(ctx context.Context, sp solverSpec, file string, timeoutS, seed i
 // solveScript races the solvers on one script.
 func solveScript(script string, dir string, timeoutS, seed int, only string) SolveResult {
 	h := sha256.Sum256([]byte(script))
-	file := filepath.Join(dir, hex.EncodeToString(h[:8])+".smt2")
+	file := filepath.Join(dir, fmt.Sprintf("%s.%d.smt2", hex.EncodeToString(h[:8]), atomic.AddInt64(&scriptSeq, 1)))
 	if err := os.WriteFile(file, []byte(script), 0o644); err != nil {
 		return SolveResult{Status: "unknown", Output: err.Error()}
 	}
